@@ -89,6 +89,13 @@ def _cwd_lookup(fs, name):
     hook = _OPTS.get("cwd_free")
     if hook is None or not isinstance(name, str):
         return False
+    try:
+        from crosshair.tracers import is_tracing
+
+        if not is_tracing():  # the analyser's own lookups (source files of the harness) are not the program's
+            return False
+    except ImportError:
+        pass
     if type(name) is str and (name.startswith("/") or name == ""):
         return False
     return hook(fs, name)
